@@ -155,3 +155,29 @@ package storagesc
 //@   prop C48
 //@   requires ssc != nil && balances != nil
 //@   at-call InsertTrieNode assert[config-validated-when-saved] obj($arg2) == obj(conf) && $cfgValid[obj(conf)]
+
+// ---------------------------------------------------------------- staking on blobbers and validators (C11)
+// A lock is validated against the stake bounds and delegate limit of the stored configuration, for the
+// sender's own transaction.
+//@ func (*StorageSmartContract).stakePoolLock
+//@   prop C11
+//@   requires t != nil && balances != nil
+//@   at-call StakePoolLock assert[configured-bounds] $arg0 == t && $arg3.MinStake == gn.MinStake && $arg3.MaxStake == gn.MaxStake && $arg3.MaxNumDelegates == gn.MaxDelegates
+
+// ---------------------------------------------------------------- unstaking from a blobber / validator (C11)
+// The storage contract's stake pool empties a delegate pool like the generic one (only for the pool's
+// owner; exactly the pool's balance goes from the contract wallet to the owner; the pool is left empty and
+// marked deleted; a failure queues and changes nothing) and, in addition, only while the provider's
+// total stake still covers its open offers plus the balance that leaves.
+//@ func (*stakePool).stake
+//@   trusted
+//@   modifies nothing
+//@ func (*stakePool).Empty
+//@   prop C11
+//@   requires sp != nil && sp.StakePool != nil && balances != nil && sp.StakePool.Pools != nil && (forall k string :: k in sp.StakePool.Pools ==> sp.StakePool.Pools[k] != nil && sp.StakePool.Pools[k].Balance <= MAXSUPPLY) && sp.TotalOffers <= MAXSUPPLY
+//@   ensures[only-the-pools-owner] result == nil ==> old(poolID in sp.StakePool.Pools) && old(sp.StakePool.Pools[poolID].DelegateID) == clientID
+//@   ensures[pays-back-exactly-the-balance] result == nil ==> $ntr == old($ntr) + 1 && $in[clientID] == old($in[clientID]) + old(sp.StakePool.Pools[poolID].Balance) && $out[sscID] == old($out[sscID]) + old(sp.StakePool.Pools[poolID].Balance)
+//@   ensures[pool-emptied-and-marked-deleted] result == nil ==> sp.StakePool.Pools[poolID].Balance == 0 && sp.StakePool.Pools[poolID].Status == 2
+//@   ensures[failure-changes-nothing] result != nil ==> $ntr == old($ntr) && (old(poolID in sp.StakePool.Pools) ==> sp.StakePool.Pools[poolID].Balance == old(sp.StakePool.Pools[poolID].Balance) && sp.StakePool.Pools[poolID].Status == old(sp.StakePool.Pools[poolID].Status))
+//@   ensures[no-pool-entry-touched] forall k string :: ((k in sp.StakePool.Pools) == old(k in sp.StakePool.Pools)) && (old(k in sp.StakePool.Pools) ==> sp.StakePool.Pools[k] == old(sp.StakePool.Pools[k]))
+//@   at-return assert[stake-still-covers-the-offers] result == nil ==> staked >= requiredBalance && requiredBalance == old(sp.TotalOffers) + old(sp.StakePool.Pools[poolID].Balance)
